@@ -110,6 +110,51 @@ func partBursts(c *check.Ctx, a *acc) {
 		map[string]any{"engine": "E4 burst", "bursts": done, "sizes": "12..64 failing ENTITY_ADD_REQUESTs from a connection in no session"})
 }
 
+// partFloods: a fatal request in the middle of a flood of valid ones: the
+// receiver goroutine runs ahead of the main loop and may be blocked on the full
+// request queue when the main loop stops consuming.
+func partFloods(c *check.Ctx, a *acc) {
+	bin, err := c.WS.Build("lab", "plain")
+	if err != nil {
+		c.Inconc("build failed: " + err.Error())
+		return
+	}
+	n := c.Pick(96, 960)
+	var mu sync.Mutex
+	done, wedged := 0, 0
+	workers := 8
+	parallel(workers, workers, func(w int) {
+		p, err := c.WS.StartLab(bin, sut.LabOpts{Name: "flood"})
+		if err != nil {
+			c.Inconc(err.Error())
+			return
+		}
+		defer p.Kill()
+		for i := w; i < n; i += workers {
+			before := 260 + (i*37)%900
+			after := (i * 53) % 700
+			f, inc := e4.FloodTrial(p, before, after, i%4 == 3)
+			mu.Lock()
+			done++
+			if f != nil {
+				wedged++
+				c.Report(f)
+			}
+			mu.Unlock()
+			if inc != "" {
+				c.Inconc(inc)
+			}
+			if !p.Alive() || wedged > 2 {
+				return
+			}
+		}
+	})
+	c.Coverage["flood_trials"] = done
+	c.Coverage["flood_trials_wedged"] = wedged
+	a.add(done, done, "floods: a connection pipelines 260-1160 valid requests, one request that ends the connection and up to 700 more valid ones (pings in no session; 10 KiB custom messages relayed to four members when joined), reading all the while; the server must close the connection and websocket.Handle must return although the receiver may be blocked on the full request queue",
+		map[string]any{"engine": "E4 flood", "floods": done})
+}
+
 // partStalls: a member stops reading while the session relays to it; idle
 // clients (silent) must be disconnected, active ones must not.
 func partStalls(c *check.Ctx, a *acc) {
@@ -229,6 +274,7 @@ func init() {
 		a := &acc{}
 		partFaults(c, a)
 		partBursts(c, a)
+		partFloods(c, a)
 		partStalls(c, a)
 		partKeepAlive(c, a)
 		partGated(c, a, []func(*sut.Proc) *e2.Result{e2.G13FrameWorkerVsLeaver}, 1)
